@@ -977,8 +977,8 @@ theorem adaptive_exact_end_partial (C : Ctl K) (est : List K → K → K → Lis
 if less than `dt_min` remained before the last accepted step, which then has the size `dt_min` -
 beyond it by less than `dt_min`.  (In exact arithmetic the second case needs an unclipped step
 that lands within `dt_min` before `t_end`; in IEEE arithmetic also `t + (t_end - t)` rounded to the
-float below `t_end`: this is what the monitor reports as "final time beyond t_end by less than
-dt_min".) -/
+float below `t_end`, after which one more step of `dt_min` follows: this is what the monitor reports
+as "final time beyond t_end by one extra step of dt_min".) -/
 theorem adaptive_end_exact_or_floor (C : Ctl K) (est : List K → K → K → List K × K) (f : Rate K)
     (fuel : Nat) (us : List K) (tStart tEnd dt0 : K) (r : AState K) (hstart : tStart < tEnd)
     (hmin : 0 < C.dtMin)
